@@ -276,7 +276,8 @@ gen = create_rhs_system(hs.rhs, dim=6, name="same field, generic path")
 def g1(t, y): return y[0] - 0.02
 @numba.njit
 def g2(t, y): return y[4] + 0.05
-grid = np.linspace(0.0, 6.0, 601); span = np.array([0.0, 6.0])
+grid = np.sort(np.unique(np.concatenate([np.linspace(0.0, 6.0, 401), np.array([0.013, 0.5, 0.51, 2.2, 2.25, 4.9])])))     # non-uniform
+span = np.array([0.0, 6.0])
 bad = {}
 for name, integ, tv in (("RK4", RungeKutta(order=4), grid), ("RK6", RungeKutta(order=6), grid), ("RK8", RungeKutta(order=8), grid),
                         ("RK45", AdaptiveRK(order=5, rtol=1e-9, atol=1e-11), span), ("DOP853", AdaptiveRK(order=8, rtol=1e-9, atol=1e-11), span)):
